@@ -154,6 +154,13 @@ def run(ctx):
                               "SysGates": "{<<1,2>>,<<0,3>>}", "EnvGates": '{"I"}', "Controls": ctl_sets}, None),
         ("1 env, controls", {"D": "2", "EDims": "<<2>>", "A0": "<<0>>", "N": "2", "M": "4",
                              "SysGates": "{<<1,2>>}", "EnvGates": '{"CS","SW","CSP"}', "Controls": ctl_sets}, None),
+        # environments without memory (an ancilla of dimension one: every bond of the process tensor has dimension one) and
+        # steps in which an environment acts on the system alone - the maps are not symmetric matrices
+        ("memoryless environment (unit bonds)", {"D": "3", "EDims": "<<1>>", "A0": "<<0>>", "N": "2", "M": "6",
+                                                 "SysGates": "{<<1,2>>}", "EnvGates": '{"SX","I","CP"}', "Controls": ctl_sets}, None),
+        ("unit-bond environment next to a qubit ancilla", {"D": "2", "EDims": "<<1,2>>", "A0": "<<0,1>>", "N": "2", "M": "4",
+                                                           "SysGates": "{<<1,2>>}", "EnvGates": '{"SX","CS","CSP"}',
+                                                           "Controls": '{ {}, {<<1,FALSE,2,1,"int">>} }'}, None),
         ("3 envs (sampled)", {"D": "2", "EDims": "<<2,2,2>>", "A0": "<<1,0,1>>", "N": "3", "M": "4",
                               "SysGates": "{<<1,2>>,<<0,2>>}", "EnvGates": '{"CS","CP","SC","SW","CSP"}',
                               "Controls": ctl_sets}, "num=%d" % (60 if quick else 400)),
